@@ -251,6 +251,17 @@ func check(c Case) (o ev.Outcome) {
 			ru[len(users)-1-i] = f
 		}
 		variants = append(variants, variant{"tree-imports-fetched", []string{"--format", "tree"}, users, ru}, variant{"types-imports-fetched", []string{"--format", "types"}, users, ru})
+		// the two revisions of one importer alone (nothing else decides what is fetched first)
+		var pair, rpair []string
+		for _, f := range users {
+			if strings.HasPrefix(f, "userr@") {
+				pair = append(pair, f)
+				rpair = append([]string{f}, rpair...)
+			}
+		}
+		if len(pair) == 2 {
+			variants = append(variants, variant{"types-imports-fetched-by-two-revisions", []string{"--format", "types"}, pair, rpair})
+		}
 	}
 	// the library's own file-based entry point
 	{
@@ -527,6 +538,21 @@ func genRevisions(t *rapid.T) Case {
 			}
 		}
 	}
+	if rapid.Bool().Draw(t, "importer-in-two-revisions") {
+		// two revisions of one importing module, one importing by date and one not
+		var dated string
+		for _, d := range dates[1:] {
+			if seen[d] {
+				dated = d
+				break
+			}
+		}
+		if dated != "" {
+			c.Sources = append(c.Sources,
+				ymodel.Source{Name: "userr@2019-05-05.yang", Text: fmt.Sprintf("module userr { namespace \"urn:userr\"; prefix u; import foo { prefix f; revision-date %s; } revision 2019-05-05; leaf l { type f:t; } }", dated)},
+				ymodel.Source{Name: "userr@2021-12-31.yang", Text: "module userr { namespace \"urn:userr\"; prefix u; import foo { prefix f; } revision 2021-12-31; leaf l { type f:t; } }"})
+		}
+	}
 	// deterministic source order for the dated importer choice
 	sort.Slice(c.Sources, func(i, j int) bool { return c.Sources[i].Name < c.Sources[j].Name })
 	nn := len(c.Sources)
@@ -560,6 +586,7 @@ func genRevisions(t *rapid.T) Case {
 // genHostile: wrong, cyclic, contradictory and incomplete texts (the generators of C01). Whatever comes back -
 // mostly errors - must come back the same in every run and load order.
 func genHostile(t *rapid.T) Case {
+	hostile.MaxChain = 300
 	h := hostile.Gen(t)
 	c := Case{Runs: 3, Lenient: true, Ignore: h.IgnoreNotSupp, IgnoreCirc: h.IgnoreCirc, Features: []string{"hostile/" + h.Gen}}
 	seen := map[string]bool{}
